@@ -197,6 +197,7 @@ def adversarial_names_stream(res, logic, gen_tree, rng, quick, pid):
     the LTL tableau, fresh CTL* atoms), so wrong answers here are the recorded finding KF-<pid>-names; for CTL the
     as-implemented memo model (CTLM) must reproduce the wrong answer, otherwise it is a new violation."""
     cases = []
+    long_cases = []
     for _ in range(200 if quick else 2000):
         K = common.random_structure(rng, 4)
         t = gen_tree()
@@ -208,10 +209,32 @@ def adversarial_names_stream(res, logic, gen_tree, rng, quick, pid):
             txt = str(to_obj(rng.choice(acc), lang(logic)))
         except Exception:
             continue
-        style = rng.choice(['print', 'bracket', 'not'])
+        style = rng.choice(['print', 'bracket', 'not', 'long'])
+        if style == 'long':
+            # identifier-style names of 250-400 characters sharing a long prefix: inside every theorem, no excuse
+            m = {'p': 'p' + 'x' * rng.choice([250, 300, 400]), 'q': 'p' + 'x' * 250 + 'q', 'r': 'p' + 'x' * 249 + 'r'}
+            long_cases.append((K, t, KS(K.succ, [[m.get(l, l) for l in ls] for ls in K.labs]), _rename(t, m)))
+            continue
         name = txt if style == 'print' else ('[' + txt + ']' if style == 'bracket' else 'not p')
         m = {rng.choice(['p', 'q']): name}
         cases.append((K, t, KS(K.succ, [[m.get(l, l) for l in ls] for ls in K.labs]), _rename(t, m)))
+    # hand-made: two quantified subformulas with a long common printed prefix, the first one unsatisfiable
+    LONG = 'p' + 'y' * 300
+    for K in [common.KS([[1], [1]], [[LONG], ['q']]), common.KS([[1], [0]], [['p'], [LONG, 'q']])]:
+        for op in ('and', 'or'):
+            long_cases.append((K, (op, ('E', ('U', ('ap', 'p'), ('ap', 'r'))), ('E', ('U', ('ap', 'p'), ('ap', 'q')))),
+                               K, (op, ('E', ('U', ('ap', LONG), ('ap', 'r'))), ('E', ('U', ('ap', LONG), ('ap', 'q'))))))
+    if long_cases and logic != 'LTL':
+        li = [norm(x) for x in impl_batch([(logic, K2.succ, K2.labs, t2, 'obj') for _, _, K2, t2 in long_cases])]
+        lm = [norm(x) for x in lean_batch(['%s|%s|%s' % (logic, K2.enc(), sexpr(t2)) for _, _, K2, t2 in long_cases])]
+        nl = 0
+        for (K, t, K2, t2), a, m_ in zip(long_cases, li, lm):
+            if a != m_:
+                nl += 1
+                if nl <= 2:
+                    res.violation('%s.modelcheck on a formula whose atoms are identifier names of 250-400 characters = %s, the model '
+                                  '(proved exact) gives %s' % (logic, a, m_),
+                                  {'logic': logic, 'structure': K2.describe(), 'formula_sexpr': sexpr(t2), 'impl': a, 'model': m_})
     impl = [norm(x) for x in impl_batch([(logic, K2.succ, K2.labs, t2, 'obj') for _, _, K2, t2 in cases])]
     truth = [norm(x) for x in lean_batch(['%s|%s|%s' % (logic, K.enc(), sexpr(t)) for K, t, _, _ in cases])]
     cmd = 'CTLM' if logic == 'CTL' else logic
